@@ -33,11 +33,10 @@ func (w *writer) Write(p []byte) (n int, err error) {
 		if w.vx.caps.synchronizedUpdate {
 			w.buf.WriteString(decset(synchronizedUpdate))
 		}
-		if w.vx.cursorLast.visible && w.vx.cursorNext.visible {
-			// Hide cursor if it's visible, and only write this if
-			// the next cursor is visible also. we'll explicitly
-			// turn the cursor off in the render loop if there is a
-			// change to the state of cursor visibility
+		if w.vx.cursorLast.visible {
+			// Hide cursor if it's visible. Flush shows it again
+			// if the next cursor is visible also; nothing else
+			// hides it when it is not
 			w.buf.WriteString(decrst(cursorVisibility))
 		}
 	}
